@@ -23,7 +23,7 @@ if ! apply; then echo "$name: patch does not apply"; exit 2; fi
 for id in "$@"; do
   out=$("$HERE/check" "$id" quick 2>&1); code=$?
   line=$(echo "$out" | grep -E "^VIOLATION" | head -1)
-  why=$(echo "$out" | grep -E "^$id \[" | head -1 | cut -c1-260)
+  why=$(echo "$out" | grep -E "^$id \[|^regression input" | head -1 | cut -c1-260)
   if [ $code -eq 1 ]; then
     echo "$name  $id  CAUGHT  $why"
     if [ "${SAVE_REGRESS:-0}" = "1" ]; then
